@@ -490,11 +490,11 @@ func (e *escaper) escapeTree(c context, node parse.Node, name string, line int) 
 	// identifier.
 	dname := mangle(c, name)
 	e.called[dname] = true
-	if out, ok := e.output[dname]; ok {
+	t := e.template(name)
+	if out, ok := e.output[dname]; ok && t != nil && t.Tree != nil {
 		// Already escaped.
 		return out, dname
 	}
-	t := e.template(name)
 	if t == nil || t.Tree == nil {
 		// Two cases: The template exists but is empty (or lost its parse tree when an
 		// earlier analysis of it failed), or has never been mentioned at all.
